@@ -307,7 +307,7 @@ class ObjView:
         self.funcs = funcs
 
     def field(self, f, zi=None):
-        return _field_z3(self.obj.fields[f], self.funcs[f][1])
+        return _field_z3(_at_path(self.obj, f), self.funcs[f][1])
 
 
 class SymColl(Sym):
@@ -336,7 +336,7 @@ class SymList(Sym):
     Version 0: field f of element i is the uninterpreted function application funcs[f](i), length ns[0].
     Every mutation (append / store at an index) adds one overlay (index, object) and one length: version v sees
     over[:v] and has length ns[v].  Field f of element i at version v is the If-chain over the overlays."""
-    __slots__ = ('name', 'ns', 'cls', 'funcs', 'pytype', 'over', 'origin', 'tag', 'poisoned')
+    __slots__ = ('name', 'ns', 'cls', 'funcs', 'pytype', 'over', 'origin', 'tag', 'poisoned', 'shape', 'bounds')
 
     def __init__(self, name, n, cls, funcs):
         self.name = name
@@ -348,6 +348,8 @@ class SymList(Sym):
         self.origin = None
         self.tag = None
         self.poisoned = None      # reason why this list object may no longer be looked at (see verify: havoc)
+        self.shape = ('obj', cls, {f: ('leaf', f, k) for f, (_fn, k) in funcs.items()})
+        self.bounds = []
 
     @property
     def n(self):
@@ -359,6 +361,8 @@ class SymList(Sym):
 
     def snapshot(self):
         c = SymList(self.name, self.ns[0], self.cls, self.funcs)
+        c.shape = self.shape
+        c.bounds = self.bounds
         c.ns = list(self.ns)
         c.over = list(self.over)
         c.origin = self.origin or self
@@ -370,11 +374,26 @@ class SymList(Sym):
         fn, kind = self.funcs[f]
         e = fn(zi)
         for idx, obj in self.over[:self.version if v is None else v]:
-            e = z3.If(zi == idx, _field_z3(obj.fields[f], kind), e)
+            e = z3.If(zi == idx, _field_z3(_at_path(obj, f), kind), e)
         return e
 
     def __repr__(self):
         return f"SymList({self.name}@{self.version})"
+
+
+def _at_path(obj, path):
+    """value of the (possibly nested) field `a.b.0` of a concrete element object"""
+    cur = obj
+    if not isinstance(obj, (SObj, tuple)):
+        return obj            # a list of scalars: the element is the value
+    for part in path.split('.'):
+        if isinstance(cur, SObj):
+            cur = cur.fields[part]
+        elif isinstance(cur, tuple):
+            cur = cur[int(part)]
+        else:
+            raise KeyError(path)
+    return cur
 
 
 def _field_z3(val, kind):
@@ -429,6 +448,14 @@ class ZipSym(Sym):
 
     def __init__(self, lists):
         self.lists = lists
+
+
+class RevSym(Sym):
+    """reversed(<list of symbolic length>): only meaningful to loops with an invariant"""
+    __slots__ = ('lst',)
+
+    def __init__(self, lst):
+        self.lst = lst
 
 
 class SymRange(Sym):
